@@ -7,7 +7,7 @@ TARGETS = ['MindsVerif.Props.C14']
 _T = ['C14_2', 'C14_2_rowdict_sound', 'C14_2_rowdict_complete', 'C14_2_iff', 'C14_2_not_in_fetch',
       'C14_2_table_conditions_never_arguments', 'C14_2_no_consumable_left', 'C14_2_conjunctwise', 'C14_2_rest_unchanged',
       'C14_2_outer', 'C14_2_outer_query',
-      'C14_3', 'C14_3_exact', 'C14_3_mentions_only', 'C14_3_on', 'C14_3_on_outer', 'C14_3_on_mentions_only',
+      'C14_3', 'C14_3_exact', 'C14_3_pushed_stored', 'C14_3_nullable', 'C14_3_mentions_only', 'C14_3_on', 'C14_3_on_outer', 'C14_3_on_mentions_only',
       'C14_4_values_from_using', 'C14_4_last_wins', 'C14_4_unprefixed', 'C14_4_foreign_prefix', 'C14_4_own_prefix',
       'C14_4_partition_size_removed', 'C14_5_sound', 'C14_5_complete', 'C14_5_neutralised', 'C14_where_clauses',
       'C14_1', 'C14_1_nodup', 'C14_1_plan', 'C14_1_apply_input', 'C14_1_predictor_first',
